@@ -67,6 +67,38 @@ pub fn generate(seed: u64, idx: u64) -> Scenario {
         let t = gen::document(&mut rng, k);
         s.open(u, &t);
     }
+    if rng.chance(35) {
+        // a user browsing through a directory: many documents opened, looked at and closed again,
+        // some of them revisited (a table or cache sized for a handful of documents must have
+        // sessions on both sides of its size)
+        let k = *rng.pick(&[6usize, 12, 17, 18, 19, 34, 40]);
+        let mut seen: Vec<String> = vec![];
+        for i in 0..k {
+            let u = format!("file:///w/dir/f{i}.spl");
+            let kind = pick_doc_kind(&mut rng);
+            let t = gen::document(&mut rng, kind);
+            s.open(&u, &t);
+            if rng.chance(400) {
+                let m = *rng.pick(&METHODS);
+                let (l, c) = gen::request_position(&mut rng, &t);
+                s.request(m, &u, l, c);
+            }
+            s.close(&u);
+            seen.push(u);
+            if rng.chance(250) {
+                let v = rng.pick(&seen).clone();
+                let kind = pick_doc_kind(&mut rng);
+                let t = gen::document(&mut rng, kind);
+                s.open(&v, &t);
+                let m = *rng.pick(&METHODS);
+                let (l, c) = gen::request_position(&mut rng, &t);
+                s.request(m, &v, l, c);
+                if rng.chance(800) {
+                    s.close(&v);
+                }
+            }
+        }
+    }
     let mut n = rng.range(1, 25);
     let mut typing: Vec<(String, Edit)> = vec![];
     if rng.chance(120) {
